@@ -54,6 +54,91 @@ def loaded_stream(ctx, n, **kw):
     return Ls
 
 
+def cj(L):
+    """case of a loaded analysis for a replay, with the filter it was loaded under (if any)"""
+    j = case_json(L.case)
+    if getattr(L, 'filter_desc', None):
+        j = dict(j, filter=L.filter_desc)
+    return j
+
+
+def filtered_views(ctx, Ls, frac=0.15):
+    """the same inputs loaded under a ParserFilter that selects some families (by HOG id) and some genes (by internal
+    or external id, singletons included): analyses of a filtered load obey the same laws"""
+    out = []
+    if FORCED is not None:
+        return out
+    for L in Ls:
+        if L.impl[0] != 'ok' or not L.case.consistent or ctx.rng.random() > frac:
+            continue
+        c = L.case
+        fam_ids = [g[1] for g in c.groups if g[1] is not None]
+        genes = [g for _, gs in c.species for g in gs]
+        if not genes:
+            continue
+        hogs = ctx.rng.sample(fam_ids, ctx.rng.randint(0, min(2, len(fam_ids)))) if fam_ids else []
+        ints = [g['id'] for g in ctx.rng.sample(genes, min(len(genes), ctx.rng.randint(0, 2)))]
+        ints += [s_ for s_ in c.singles if ctx.rng.random() < 0.7]
+        ext = [g['protId'] for g in ctx.rng.sample(genes, min(len(genes), ctx.rng.randint(0, 1))) if g.get('protId')]
+        if not (hogs or ints or ext):
+            continue
+        r = impl.load_impl(c, filter_object=make_filter(hogs, ext, ints))
+        if r[0] != 'ok':
+            continue            # whether a filtered load succeeds is C11's subject
+        Lf = core.Loaded.__new__(core.Loaded)
+        Lf.case, Lf.impl, Lf.model, Lf.dump = c, r, L.model, impl.Dump(r[1])
+        Lf.filter_desc = {'hogs': hogs, 'external': ext, 'internal': ints}
+        ctx.dist['filtered_analysis'] += 1
+        out.append(Lf)
+    return out
+
+
+def phyloxml_views(ctx, Ls, work, frac=0.1):
+    """the same inputs with the species tree supplied as PhyloXML, the node names decorated with characters a Newick
+    label cannot carry (parentheses, brackets, colon, comma, '=', ';'): the analyses obey the same laws"""
+    out = []
+    if FORCED is not None:
+        return out
+    deco = [' (strain K12)', ' [1]', ': sub', ', sp.', ' = x', '; y']
+    for L in Ls:
+        c = L.case
+        if L.impl[0] != 'ok' or not c.consistent or getattr(L, 'filter_desc', None) or ctx.rng.random() > frac \
+                or not all(n.name for n in c.tree.nodes()):
+            continue
+        ren = {}
+        for n in c.named_tree().nodes():
+            ren[n.name] = n.name + (ctx.rng.choice(deco) if ctx.rng.random() < 0.5 else '')
+        t2 = gen.copy_tree(c.named_tree())
+        for n in t2.nodes():
+            n.name = ren[n.name]
+        t2.set_paths()
+
+        def rn(it):
+            if it[0] == 'prop' and it[1] == 'TaxRange':
+                return ('prop', 'TaxRange', ren.get(it[2], it[2]))
+            if it[0] == 'og':
+                return ('og', it[1], it[2], [rn(x) for x in it[3]])
+            if it[0] == 'pg':
+                return ('pg', it[1], [rn(x) for x in it[2]])
+            return it
+        c2 = gen.Case(t2, [(ren.get(n, n), gs) for n, gs in c.species], [rn(g) for g in c.groups], True, c.histories,
+                      c.singles, c.tag + ':phyloxml-names', c.stats, c.consistent)
+        pxf = os.path.join(work, 'v%d.phyloxml' % len(out))
+        with open(pxf, 'w') as f_:
+            f_.write(phyloxml_text(t2))
+        r = impl.load_impl(c2, newick=pxf, tree_format='phyloxml')
+        if r[0] != 'ok':
+            ctx.violation('consistent input rejected when the species tree is supplied as PhyloXML: %s' % r[1],
+                          {'case': dict(case_json(c2), tree_format='phyloxml')})
+            continue
+        Lp = core.Loaded.__new__(core.Loaded)
+        Lp.case, Lp.impl, Lp.model, Lp.dump = c2, r, L.model, impl.Dump(r[1])
+        Lp.filter_desc = {'tree_format': 'phyloxml'}
+        ctx.dist['phyloxml_analysis'] += 1
+        out.append(Lp)
+    return out
+
+
 def report_parser_layer(ctx, L, diffs, theorem):
     """a parser-layer disagreement with no failing predicate: the theorem no longer speaks about this code"""
     ctx.counts['parser_layer_disagreements'] += 1
@@ -583,6 +668,7 @@ def impl_upmap(L, ga, gd):
 
 def check_C07(ctx):
     Ls = loaded_stream(ctx, ctx.scale(300, 4000))
+    Ls = Ls + filtered_views(ctx, Ls, 0.1)
     idx = {id(L): i for i, L in enumerate(Ls)}
     plan = {}
     for i, L in enumerate(Ls):
@@ -606,7 +692,7 @@ def check_C07(ctx):
             try:
                 uac, ubc, uab = impl_upmap(L, gs[a], gs[c]), impl_upmap(L, gs[b], gs[c]), impl_upmap(L, gs[a], gs[b])
             except Exception as e:  # noqa
-                ctx.violation('comparison raised %s' % type(e).__name__, {'case': case_json(L.case), 'triple': [a, b, c]})
+                ctx.violation('comparison raised %s' % type(e).__name__, {'case': cj(L), 'triple': [a, b, c]})
                 continue
             bad = []
             if wf and L.case.consistent:
@@ -622,7 +708,7 @@ def check_C07(ctx):
                     elif x is not None and fl != (f1 or f2):
                         bad.append('%s: duplication flag over the long branch differs from the chained one' % (hy,))
             if bad:
-                ctx.violation(bad[0], {'case': case_json(L.case), 'triple': [a, b, c], 'failures': bad[:10]})
+                ctx.violation(bad[0], {'case': cj(L), 'triple': [a, b, c], 'failures': bad[:10]})
                 continue
             ok = True
             for u, rep in zip((uac, ubc, uab), reps[i][1 + 3 * k: 4 + 3 * k]):
@@ -631,7 +717,7 @@ def check_C07(ctx):
                     ok = False
             if not ok:
                 ctx.violation('mapper layer (up-map): model and implementation disagree; props/C07.v: c07_compose no longer tied to the code',
-                              {'case': case_json(L.case), 'triple': [a, b, c], 'layer': 'mapper'}, no_input=True)
+                              {'case': cj(L), 'triple': [a, b, c], 'layer': 'mapper'}, no_input=True)
             else:
                 ctx.counts['mapper_layer_agree'] += 1
 
@@ -639,6 +725,7 @@ def check_C07(ctx):
 # ---- C08
 def check_C08(ctx):
     Ls = loaded_stream(ctx, ctx.scale(250, 3000))
+    Ls = Ls + filtered_views(ctx, Ls, 0.1)
     idx = {id(L): i for i, L in enumerate(Ls)}
     plan = {}
     for i, L in enumerate(Ls):
@@ -721,7 +808,7 @@ def check_C08(ctx):
                     if sorted((k, xs) for k, v in lat['dup'] for gg, xs in v if gg == g) != hm['dup']:
                         bad.append('lateral duplicated set of a genome differs from its vertical comparison')
             if bad:
-                ctx.violation(bad[0], {'case': case_json(L.case), 'pair': [p1, p2], 'failures': bad[:10]})
+                ctx.violation(bad[0], {'case': cj(L), 'pair': [p1, p2], 'failures': bad[:10]})
                 continue
             # correspondence with the model's lateral
             m_anc = P(rep[0])
@@ -735,7 +822,7 @@ def check_C08(ctx):
                 i_maps = [('error', type(e).__name__)]
             if m_anc != lats[0]['anc'] or m_maps != sorted(i_maps):
                 ctx.violation('mapper layer (lateral): model and implementation disagree; props/C08.v: c08_lateral no longer tied to the code',
-                              {'case': case_json(L.case), 'pair': [p1, p2], 'layer': 'mapper'}, no_input=True)
+                              {'case': cj(L), 'pair': [p1, p2], 'layer': 'mapper'}, no_input=True)
             else:
                 ctx.counts['mapper_layer_agree'] += 1
 
@@ -776,6 +863,7 @@ def html_numbers(text):
 
 def check_C09(ctx):
     Ls = loaded_stream(ctx, ctx.scale(300, 4000))
+    Ls = Ls + filtered_views(ctx, Ls)
     reps = analyze(Ls, lambda L: [['wf'], ['profile_full']] if L.impl[0] == 'ok' else [])
     work = os.path.join(core.VERIF, '.work')
     os.makedirs(work, exist_ok=True)
@@ -789,7 +877,7 @@ def check_C09(ctx):
             tp = L.ham.create_tree_profile()
         except Exception as e:  # noqa
             ctx.violation('whole-dataset tree profile cannot be built: %s' % type(e).__name__,
-                          {'case': case_json(L.case), 'error': repr(e)[:300]},
+                          {'case': cj(L), 'error': repr(e)[:300]},
                           finding_key='F4-root-without-genome' if not root_has_genome else None)
             continue
         tab = treemap_table(tp.treemap)
@@ -846,12 +934,12 @@ def check_C09(ctx):
         except Exception as e:  # noqa
             bad.append('HTML export failed: %s' % type(e).__name__)
         if bad:
-            ctx.violation(bad[0], {'case': case_json(L.case), 'failures': bad[:10]})
+            ctx.violation(bad[0], {'case': cj(L), 'failures': bad[:10]})
             continue
         # correspondence
         if rep[1][0] != 'ok':
             ctx.violation('profile layer: model rejects; props/C09.v no longer tied to the code',
-                          {'case': case_json(L.case), 'layer': 'profile', 'model': repr(rep[1])[:300]}, no_input=True)
+                          {'case': cj(L), 'layer': 'profile', 'model': repr(rep[1])[:300]}, no_input=True)
             continue
         mt = {}
         for p, nbr, f in rep[1][1]:
@@ -860,7 +948,7 @@ def check_C09(ctx):
         it = {p: (nbr, None if p == () else f) for p, (nbr, f, _) in tab.items()}
         if mt != it:
             ctx.violation('profile layer: model and implementation disagree; props/C09.v: c09_balance no longer tied to the code',
-                          {'case': case_json(L.case), 'layer': 'profile', 'impl': repr(sorted(it.items()))[:1500],
+                          {'case': cj(L), 'layer': 'profile', 'impl': repr(sorted(it.items()))[:1500],
                            'model': repr(sorted(mt.items()))[:1500]}, no_input=True)
         else:
             ctx.counts['profile_layer_agree'] += 1
@@ -870,7 +958,17 @@ HFEATS = ('retained', 'dupl', 'lost', 'duplication', 'nbr_events')
 
 
 def check_C10(ctx):
+    work10 = tempfile.mkdtemp(prefix='c10_', dir=os.path.join(core.VERIF, '.work') if os.path.isdir(os.path.join(core.VERIF, '.work')) else None)
+    try:
+        return check_C10_body(ctx, work10)
+    finally:
+        import shutil
+        shutil.rmtree(work10, ignore_errors=True)
+
+
+def check_C10_body(ctx, work10):
     Ls = loaded_stream(ctx, ctx.scale(250, 3000))
+    Ls = Ls + filtered_views(ctx, Ls, 0.1) + phyloxml_views(ctx, Ls, work10, 0.1)
     def cmds(L):
         if L.impl[0] != 'ok':
             return []
@@ -920,13 +1018,13 @@ def check_C10(ctx):
                         bad.append('family %s: lost is not "parent-level members without descendant here"' % hid)
             # correspondence
             if not mrep or mrep == 'nohog':
-                ctx.violation('profile layer: model cannot profile a family', {'case': case_json(L.case), 'layer': 'profile'}, no_input=True)
+                ctx.violation('profile layer: model cannot profile a family', {'case': cj(L), 'layer': 'profile'}, no_input=True)
                 continue
             mt = {P(p): (int(nbr), None if not f else dict(zip(HFEATS, (int(x) for x in f[0])))) for p, nbr, f in mrep[0]}
             it = {p: (nbr, None if p == root else f) for p, (nbr, f) in tab.items()}
             if mt != it:
                 ctx.violation('profile layer (family): model and implementation disagree; props/C10.v no longer tied to the code',
-                              {'case': case_json(L.case), 'layer': 'profile', 'family': hid,
+                              {'case': cj(L), 'layer': 'profile', 'family': hid,
                                'impl': repr(sorted(it.items()))[:1200], 'model': repr(sorted(mt.items()))[:1200]}, no_input=True)
             else:
                 ctx.counts['profile_layer_agree'] += 1
@@ -953,7 +1051,7 @@ def check_C10(ctx):
                     if nbr != sum(tab[p][0] for r, tab in fam_tabs if p in tab) + singles[p]:
                         bad.append('nbr_genes at %s is not the sum over families + singletons' % name)
         if bad:
-            ctx.violation(bad[0], {'case': case_json(L.case), 'failures': bad[:10]})
+            ctx.violation(bad[0], {'case': cj(L), 'failures': bad[:10]})
 
 
 # ------------------------------------------------------------------ navigation layer (C16)
@@ -987,6 +1085,7 @@ def sx_nodes(x):
 
 def check_C16(ctx):
     Ls = loaded_stream(ctx, ctx.scale(250, 3000))
+    Ls = Ls + filtered_views(ctx, Ls, 0.1)
     plan = {}
     def cmds(L):
         if L.impl[0] != 'ok':
@@ -1104,10 +1203,10 @@ def check_C16(ctx):
             if mc != cl:
                 agree = False
         if bad:
-            ctx.violation(bad[0], {'case': case_json(L.case), 'failures': bad[:10]})
+            ctx.violation(bad[0], {'case': cj(L), 'failures': bad[:10]})
         elif not agree:
             ctx.violation('navigation layer: model and implementation disagree; props/C16.v no longer tied to the code',
-                          {'case': case_json(L.case), 'layer': 'navigation'}, no_input=True)
+                          {'case': cj(L), 'layer': 'navigation'}, no_input=True)
         else:
             ctx.counts['navigation_layer_agree'] += 1
 
@@ -2039,7 +2138,8 @@ def newick_names(nwk):
 
 
 def sx_tree_names(x):
-    return [str(x[0])] + [sx_tree_names(k) for k in x[1:]]
+    # the Newick writer spells the empty name of an unlabelled node "NoName" (ete3; Tax.name_text in the model)
+    return [str(x[0]) or 'NoName'] + [sx_tree_names(k) for k in x[1:]]
 
 
 def check_C12(ctx):
@@ -2255,7 +2355,8 @@ def check_C13(ctx):
             configs = []
             trees = [('newick_string', c.newick(), {}), ('newick', nwf, {})]
             for tag in ('clade_name', 'taxonomy_scientific_name', 'taxonomy_code'):
-                trees.append(('phyloxml', pxf, {'phyloxml_leaf_name_tag': tag, 'phyloxml_internal_name_tag': tag}))
+                if named_ok:      # PhyloXML cannot express a node without name (the unlabelled root of a Newick tree)
+                    trees.append(('phyloxml', pxf, {'phyloxml_leaf_name_tag': tag, 'phyloxml_internal_name_tag': tag}))
             xmls = [('string', c.xml(), True), ('string-one-chunk', c.xml(one_line=True), True), ('file', xf, False),
                     ('file-one-line', xf1, False), ('gzip', xgz, False)]
             for tf, tv, tk in trees:
